@@ -69,16 +69,24 @@ MacroTokens == {Tok("c", "a", "", ""), Tok("c", "é", "", ""), Tok("c", " ", "",
                 Tok("eo", "", "", ""), Tok("ec", "", "", ""),
                 Tok("h", "", "x", "id"), Tok("h", "", "y", "expr"), Tok("h", "", "x2", "fmt"),
                 Tok("h", "", "k é", "key")}
-MacroLits == UNION {{q \in [1..n -> MacroTokens] :
-                        \A i, j \in 1..n : (i < j /\ q[i].k = "h") => q[i] # q[j]} : n \in 0..3}
+\* further hole forms (in literals of <= 2 tokens): the named-argument forms of the attributes,
+\*   keyname `{#[emit::key(name: "k2")] z2}`, keyexpr `{#[emit::key(name: KEY3)] z3}` (KEY3 a const),
+\*   fmtnamed `{#[emit::fmt(flags: "?")] x3}`
+MoreTokens == {Tok("h", "", "k2", "keyname"), Tok("h", "", "k3", "keyexpr"), Tok("h", "", "x3", "fmtnamed")}
+DistinctHoles(q) == \A i, j \in 1..Len(q) : (i < j /\ q[i].k = "h") => q[i] # q[j]
+MacroLits == UNION {{q \in [1..n -> MacroTokens] : DistinctHoles(q)} : n \in 0..3}
+             \cup UNION {{q \in [1..n -> MacroTokens \cup MoreTokens] :
+                            DistinctHoles(q) /\ \E i \in 1..n : q[i] \in MoreTokens} : n \in 1..2}
+\* the macros every literal is expanded by (level A: the same template, the same message)
+MacroForms == {"tpl", "evt", "emit", "format"}
 MacroPart(tok) ==
     IF tok.k = "c" THEN TextPart(<<tok.c>>)
     ELSE IF tok.k = "eo" THEN TextPart(<<"{">>)
     ELSE IF tok.k = "ec" THEN TextPart(<<"}">>)
-    ELSE HolePart(tok.l, IF tok.form = "fmt" THEN 2 ELSE 0)
+    ELSE HolePart(tok.l, IF tok.form \in {"fmt", "fmtnamed"} THEN 2 ELSE 0)
 MacroParts(q) == [i \in 1..Len(q) |-> MacroPart(q[i])]
 \* the values in scope at the call site
-MacroProps == << <<"x", "X0">>, <<"y", "Y1">>, <<"x2", "Q">>, <<"k é", "Z2">> >>
+MacroProps == << <<"x", "X0">>, <<"y", "Y1">>, <<"x2", "Q">>, <<"k é", "Z2">>, <<"k2", "Z3">>, <<"k3", "Z4">>, <<"x3", "R">> >>
 MacroLine(q) ==
     LET t == MacroParts(q) IN
     PrintT(<<"MACRO", ToJson([toks |-> q, parts |-> t, norm |-> Norm(t),
@@ -102,7 +110,9 @@ FmtFlagSet == {
     FF("#?", "std", "", "", 0), FF("?", "std", "", "", 0), FF("05", "std", "", "", 0),
     FF(".0", "std", "", "", 0), FF("^9.1", "std", "", "", 0), FF("+08.3", "std", "", "", 0),
     FF("x?", "std", "", "", 0), FF("#x?", "std", "", "", 0), FF(":>+6", "std", "", "", 0),
-    FF(".3", "std", "", "", 0), FF(":>08.1", "std", "", "", 0)}
+    FF(".3", "std", "", "", 0), FF(":>08.1", "std", "", "", 0), FF("", "std", "", "", 0)}
+\* the attribute argument is the literal (`"FLAGS"`) or named (`flags: "FLAGS"`; for one value)
+FmtArgForms == {"lit", "named"}
 FV(ty, src, text) == [ty |-> ty, src |-> src, text |-> text]
 FmtValues == {FV("i", "42", <<"4", "2">>), FV("i", "-7", <<"-", "7">>),
               FV("f", "3.14159", <<"3", ".", "1", "4", "1", "5", "9">>), FV("f", "-0.5", <<"-", "0", ".", "5">>),
@@ -114,13 +124,15 @@ Pad(text, fill, align, width) ==
          IF align = ">" THEN Rep(fill, k) \o text
          ELSE IF align = "<" THEN text \o Rep(fill, k)
          ELSE Rep(fill, k \div 2) \o text \o Rep(fill, k - k \div 2)
-FmtSiteLine(ff, fv) ==
-    PrintT(<<"FMTSITE", ToJson([flags |-> ff.flags, kind |-> ff.kind, ty |-> fv.ty, src |-> fv.src,
+FmtSiteLine(ff, fv, af) ==
+    PrintT(<<"FMTSITE", ToJson([flags |-> ff.flags, kind |-> ff.kind, ty |-> fv.ty, src |-> fv.src, arg |-> af,
         raw |-> "[{v}]",
         expect |-> IF ff.kind = "pad" THEN "[" \o ConcatS(Pad(fv.text, ff.fill, ff.align, ff.width)) \o "]" ELSE ""])>>)
 
 ASSUME \A q \in MacroLits : MacroLine(q)
-ASSUME \A ff \in FmtFlagSet, fv \in FmtValues : FmtSiteLine(ff, fv)
+ASSUME \A ff \in FmtFlagSet, fv \in FmtValues, af \in FmtArgForms :
+    (af = "lit" \/ fv.src = "ab") => FmtSiteLine(ff, fv, af)
+ASSUME PrintT(<<"MACROFORMS", ToJson(MacroForms)>>)
 ASSUME PrintT(<<"PROPS", ToJson(PropSeq)>>)
 ASSUME \A t \in RenderDomain : TemplateLine(t)
 =============================================================================
